@@ -121,7 +121,20 @@ Edited(sh, X) == IF IsVec(sh) THEN [j \in 1..sh[2] |-> IF j = 1 THEN R(9) ELSE X
 AggEditCases == {[form |-> "aggedit", op |-> name, sa |-> sh, sb |-> Scalar, A |-> ToJson(Operand(sh, "A")), B |-> ToJson(R(2)),
                   res |-> ToJson(Agg(name, sh, Edited(sh, Operand(sh, "A")), 2))]
                  : name \in {"sum", "prod", "mean", "median", "variance", "rank"}, sh \in ArrShapes}
-Cases == EwCases \cup DotCases \cup AggCases \cup NestCases \cup AggEditCases
+\* the dot product next to and around element-wise expressions:
+\*   "sub":  U - V.W     (vectors of one length n: the scalar V.W is subtracted from every entry of U)
+\*   "in":   A.(B + B*A) (square matrices n x n: an element-wise expression, nested twice, as the second operand of the dot product)
+\*   "in1":  A.(B + A)
+VecN(n, which) == Operand(<<0, n>>, which)
+SqN(n, which) == Operand(<<n, n>>, which)
+DotMixCases ==
+    {[form |-> "dotmix", op |-> "sub", sa |-> <<0, n>>, sb |-> <<0, n>>, A |-> ToJson(VecN(n, "A")), B |-> ToJson(VecN(n, "B")),
+      res |-> ToJson(EW("-", <<0, n>>, Scalar, VecN(n, "A"), Dot(<<0, n>>, <<0, n>>, VecN(n, "B"), VecN(n, "A"))))] : n \in 1..MaxDim}
+    \cup {[form |-> "dotmix", op |-> "in", sa |-> <<n, n>>, sb |-> <<n, n>>, A |-> ToJson(SqN(n, "A")), B |-> ToJson(SqN(n, "B")),
+           res |-> ToJson(Dot(<<n, n>>, <<n, n>>, SqN(n, "A"), EW("+", <<n, n>>, <<n, n>>, SqN(n, "B"), EW("*", <<n, n>>, <<n, n>>, SqN(n, "B"), SqN(n, "A")))))] : n \in 1..MaxDim}
+    \cup {[form |-> "dotmix", op |-> "in1", sa |-> <<n, n>>, sb |-> <<n, n>>, A |-> ToJson(SqN(n, "A")), B |-> ToJson(SqN(n, "B")),
+           res |-> ToJson(Dot(<<n, n>>, <<n, n>>, SqN(n, "A"), EW("+", <<n, n>>, <<n, n>>, SqN(n, "B"), SqN(n, "A"))))] : n \in 1..MaxDim}
+Cases == EwCases \cup DotCases \cup AggCases \cup NestCases \cup AggEditCases \cup DotMixCases
          \cup {c \in RedimCases : c.prev \in Smaller(c.sa)} \cup OrderCases
 
 Init == case \in Cases /\ done = FALSE
